@@ -661,6 +661,7 @@ def check(ctx):
     rule8(ctx, rep)
     shared.borrow(ctx, rep, [
         ('c03', lambda m: m.rule2(ctx, rep), 'a batch entry that keeps its do set is handed to the farm again on the next dispatch, whatever its upstream does by then'),
+        ('c03', lambda m: m.rule6(ctx, rep), 'the release filter withholds a target while an ancestor has it in doing: doing may shrink only where the reply of that unit is applied'),
     ])
     return rep
 
